@@ -240,6 +240,13 @@ func (c *compiler) compileType(y *Type, parent Leafable, isUnion bool) error {
 		return errors.New("no type set on " + SchemaPath(parent))
 	}
 	if int(y.format) != 0 {
+		// compiled already: the copies of a grouping's leaf share their type.  Each copy still
+		// takes the default and units its typedef gives it
+		if _, builtinType := val.TypeAsFormat(y.ident); !builtinType && !isUnion {
+			if tdef, err := c.findTypedef(y, parent, y.ident); err == nil {
+				c.inheritFromTypedef(parent, tdef)
+			}
+		}
 		if _, isList := parent.(*LeafList); isList && !y.format.IsList() {
 			y.format = y.format.List()
 		}
@@ -258,14 +265,7 @@ func (c *compiler) compileType(y *Type, parent Leafable, isUnion bool) error {
 		tdef.dtype.mixin(y)
 
 		if !isUnion {
-			if !parent.HasDefault() {
-				if tdef.HasDefault() {
-					parent.setDefaultValue(tdef.DefaultValue())
-				}
-			}
-			if parent.Units() == "" {
-				parent.setUnits(tdef.Units())
-			}
+			c.inheritFromTypedef(parent, tdef)
 		}
 	}
 
@@ -352,6 +352,18 @@ func (c *compiler) compileType(y *Type, parent Leafable, isUnion bool) error {
 	}
 
 	return nil
+}
+
+// a leaf that states no default or units has those of the nearest typedef that states them
+func (c *compiler) inheritFromTypedef(parent Leafable, tdef *Typedef) {
+	if !parent.HasDefault() {
+		if tdef.HasDefault() {
+			parent.setDefaultValue(tdef.DefaultValue())
+		}
+	}
+	if parent.Units() == "" {
+		parent.setUnits(tdef.Units())
+	}
 }
 
 func (c *compiler) findTypedef(y *Type, parent Definition, qualifiedIdent string) (*Typedef, error) {
